@@ -4,7 +4,7 @@ them by name."""
 import re
 import sys
 
-from . import transform, regroup, join, arith, interp, reshape, missing, align
+from . import transform, regroup, join, arith, interp, reshape, missing, align, dataset
 
 
 def clauses_only(cls, pattern, prop, suffix):
@@ -48,3 +48,8 @@ META_CONTRACTS = [clauses_only(c, META, "C16", "Meta") for c in (
     regroup.Flatten, regroup.Unflatten, regroup.Reshape, join.Stack, join.Concatenate, arith.ScalarOperation, arith.Operation,
     interp.Interp1D, reshape.Transpose, reshape.SwapAxes, reshape.RollAxis, reshape.NewAxis, reshape.Squeeze, reshape.Repeat,
     missing.FillNa, missing.SetNa, missing.CompressAxis, missing.DropNa1D, align.ReindexAxis, align.ReindexLike, reshape.Broadcast, arith.Comparison)]
+
+
+# Dataset construction and Dataset-wide operations leave their operands untouched (the clauses named operand:... / inputs-untouched)
+FRAME_CONTRACTS += [clauses_only(c, r"untouched|^operand", "C15", "Frame") for c in (
+    dataset.DatasetTake, dataset.DatasetTakeAxis, dataset.DatasetScalarOp, dataset.DatasetReduce, dataset.DatasetJoin, dataset.DatasetConstruct)]
